@@ -315,6 +315,39 @@ def instruments(ctx, evs):
     return [e for e in evs if e["run"] not in bad_runs], len(bad_runs)
 
 
+def sequence_stages(ctx):
+    """Inputs that are sequences rather than one altered message, and modules backed by plugins:
+    (a) scripted devmod sequences from a proven device (nummodules N, one or two devmod:modules chunks
+    with any start / announced length / number of names, in one or two 68 messages) replace the first
+    DeviceServiceInfo at the plaintext layer of an otherwise honest TO2: the owner answers 69 or an
+    error message; (b) arbitrary CBOR items as service-info values handed to plugin-backed modules on
+    both sides. A panic or a hang is a step of no action of Server.tla / Client.tla."""
+    wd = ctx.sub("devmodseq")
+    op = os.path.join(wd, "devmod.json")
+    ctx.run_vh(["devmod-seq", "-n", 320 if ctx.quick() else 0, "-seed", ctx.seed, "-out", op], timeout=3000)
+    with open(op) as f:
+        d = json.load(f)
+    res = d["results"]
+    reached = sum(1 for r in res if r["reached"])
+    outcomes = {}
+    for r in res:
+        k = ",".join(str(x) for x in r["resp"]) or "-"
+        outcomes[k] = outcomes.get(k, 0) + 1
+        sc = r["script"]
+        what = "nummodules=%s chunks=%s split=%s" % (sc["n"], [[c["Start"], c["Len"], c["Names"]] for c in sc["chunks"]], sc["split"])
+        if r.get("panic"):
+            ctx.violation("panic|%s|server|t=68|devmod-sequence" % r["panic"].split("@")[-1].strip(),
+                          "owner panicked on a scripted devmod sequence from a proven device (%s): %s" % (what, r["panic"]), r)
+        elif r.get("hang"):
+            ctx.violation("hang|server|t=68|devmod-sequence", "TO2 did not end within 90 s on a scripted devmod sequence (%s)" % what, r)
+    ctx.notes["devmod_sequences"] = {"executed": len(res), "of": d["total"], "reached_responder": reached, "responses": outcomes}
+    if reached < len(res) * 0.9 or len(outcomes) < 2:
+        raise Inconclusive("devmod sequence stage is vacuous: %d of %d reached the responder, outcomes %r" % (reached, len(res), outcomes))
+    ctx.cov["evaluations"] += len(res)
+    from checks import x01
+    x01.peer_stage(ctx, 2000 if ctx.quick() else 40000)
+
+
 def run(ctx):
     quick = ctx.quick()
     rnd = random.Random(ctx.seed)
@@ -430,6 +463,7 @@ def run(ctx):
     ctx.notes["client_outcomes"] = {o: sum(1 for e in cevs if e["outcome"] == o) for o in ("ok", "error", "crash", "hang")}
     ctx.sample([e for e in muts if e.get("resp") == 255][:2])
     ctx.sample([e for e in cevs if e["hit"]][:2])
+    sequence_stages(ctx)
     ctx.assumptions += ["allocation oracle: TotalAlloc delta of the handler call <= 64*len(request)+8 MiB (volume family: + 2 KiB per added entry), measured with one world per process",
                         "hang oracle: a handler call that has not returned after 90 s, a client run that has not returned after 100 s (75 s after its context expired)",
                         "mutants are seeded structure-aware mutations (cb.Mutate) and the deterministic families of MutantClasses.tla (cb.Sweep, cb.Inner, cb.Volume), not all byte strings",
